@@ -75,7 +75,15 @@ func unmarshalMultiLineString(order byteOrder, data []byte) (orb.MultiLineString
 	result := make(orb.MultiLineString, 0, alloc)
 
 	for i := 0; i < int(num); i++ {
-		ls, _, err := ScanLineString(data)
+		// a member is a plain line string (see unmarshalMultiPoint)
+		mOrder, typ, _, geomData, err := unmarshalByteOrderType(data)
+		if err != nil {
+			return nil, err
+		}
+		if typ != lineStringType {
+			return nil, ErrIncorrectGeometry
+		}
+		ls, err := unmarshalLineString(mOrder, geomData)
 		if err != nil {
 			return nil, err
 		}
